@@ -63,7 +63,7 @@ inductive Rule where
   | optBoxInInput | optOfOther | resultNotTopLevel | writeNotLast | staticSliceUnsupported
   | callbackUnsupported | callbackInStruct | callbackTakesRef | unitInInput
   | orderingInStruct | zstOutsideResultOption | boxNonOpaque | ownedSliceReturned | strsInOutput | fnInOutput
-  | selfRefStruct | selfOutStruct | selfOpaqueByValue
+  | selfRefStruct | selfOutStruct | selfOpaqueByValue | selfRefEnum | writeWithValue
   | ffiUnsafeField | zstWithMethods | zstOutStruct
   | elidedInReturn | elisionPanic | unresolved
   deriving Repr, DecidableEq
@@ -246,7 +246,7 @@ def selfErrs (env : Env) (s : SelfParam) : List Rule :=
   match env.get s.ty with
   | some (.struct out _) => if out then [.selfOutStruct] else if s.byRef then [.selfRefStruct] else []
   | some .opaqueTy => if s.byRef then [] else [.selfOpaqueByValue]
-  | some .enumTy => []
+  | some .enumTy => if s.byRef then [.selfRefEnum] else []
   | none => [.unresolved]
 
 /-- an `Ok` / `Err` arm of a returned `Result`: unit, or an output type inside a result -/
@@ -286,9 +286,29 @@ def selfErrsOpt (env : Env) : Option SelfParam → List Rule
   | some s => selfErrs env s
   | none => []
 
+/-- is the last parameter a `&mut DiplomatWrite` -/
+def takesWrite (m : Method) : Bool :=
+  match m.params.getLast? with
+  | some (_, .write) => true
+  | _ => false
+
+/-- the returns of a method that writes its output: nothing, `Option<()>`, `Result<(), E>`
+    (book/src/writeable.md: "methods that philosophically return a `String` or a `Result<String>`") -/
+def writeRetOk : Option TyName → Bool
+  | none => true
+  | some .unit => true
+  | some (.opt .unit _) => true
+  | some (.res .unit _ _) => true
+  | _ => false
+
+/-- a write parameter next to a returned value: the bindings have nowhere to put both -/
+def writeErrs (m : Method) : List Rule :=
+  if takesWrite m && !writeRetOk m.ret then [.writeWithValue] else []
+
 /-- `lower_method`: self, parameters, return type -/
 def shapeErrs (env : Env) (sup : Support) (m : Method) : List Rule :=
   selfErrsOpt env m.self ++ (inputParams m).flatMap (fun p => inErrs env sup false p.2) ++ retErrs env sup m.ret
+    ++ writeErrs m
 
 /-- the elided-return check of `validate` (and the elision machine's panic when elision has no unique source) -/
 def retHasAnon (m : Method) : Bool := match m.ret with | some t => hasAnonLt t | none => false
